@@ -201,6 +201,34 @@ Theorem C10_setup_refusal_with_suffix_check :
 Proof. exact setup_refuses_allowed. Qed.
 Print Assumptions C10_setup_refusal_with_suffix_check.
 
+(* Lists of requested outputs (tdms2rtdc on a folder; any caller with
+   lists): [unlink_set] is everything setup may remove - every corrected
+   output and every temporary path.  Setup refuses exactly when one of them
+   is an input ... *)
+Theorem C10_setup_list_refuses_iff :
+  forall (inputs reqs : list fpath),
+    setup_paths_list inputs reqs = None
+    <-> exists p, In p (unlink_set reqs) /\ In p inputs.
+Proof. exact setup_list_refuses_iff. Qed.
+Print Assumptions C10_setup_list_refuses_iff.
+
+(* ... and when it runs, no path of its unlink set is an input; an output is
+   never the temporary path of another request. *)
+Theorem C10_setup_list_unlinks_no_input :
+  forall (inputs reqs : list fpath) (ots : list (fpath * fpath)),
+    setup_paths_list inputs reqs = Some ots ->
+    ots = map out_tmp reqs
+    /\ forall p, In p (unlink_set reqs) -> ~ In p inputs.
+Proof. exact setup_list_unlinks_no_input. Qed.
+Print Assumptions C10_setup_list_unlinks_no_input.
+
+Theorem C10_output_never_another_temp :
+  forall r1 r2 : fpath,
+    snd r1 <> [] -> snd r2 <> [] ->
+    fst (out_tmp r1) <> snd (out_tmp r2).
+Proof. exact out_never_a_temp. Qed.
+Print Assumptions C10_output_never_another_temp.
+
 (* split (no setup_task_paths): for an input named <stem><suffix> (a pathlib
    suffix is empty or starts with a dot) neither a part <stem>_<digits>.rtdc
    nor its temporary name <stem>_<digits>.rtdc~ is the input. *)
